@@ -245,6 +245,37 @@ func ruleC20(c *Ctx) {
 				good = ld.X == unwrap(de[0].Common().Args[1]) && domInstr(de[0], s)
 			}
 		}
+		if good {
+			// a fresh record per element: the Entry decoded into is allocated inside the token loop. A record that
+			// lives across iterations shares its slices with the copies already sent (still queued in the channel).
+			if a, ok := unwrap(de[0].Common().Args[1]).(*ssa.Alloc); ok {
+				hdrA, hdrT := enclosingLoopHeader(a.Block()), enclosingLoopHeader(tokBlock)
+				if hdrA == nil && hdrT != nil {
+					wholeReset := false
+					eachInstr(parse, func(i ssa.Instruction) {
+						if stx, ok := i.(*ssa.Store); ok && stx.Addr == ssa.Value(a) && inLoop(stx.Block()) {
+							if v := tb.T(stx.Val); v.Op == "const" || v.Op == "zero" {
+								wholeReset = true
+							}
+						}
+					})
+					// ... and a reset that keeps the old backing arrays (x = T{F: x.F[:0]}) is no reset of what was sent
+					reused := false
+					eachInstr(parse, func(i ssa.Instruction) {
+						if stx, ok := i.(*ssa.Store); ok && inLoop(stx.Block()) {
+							if fa, ok := stx.Addr.(*ssa.FieldAddr); ok && fa.X == ssa.Value(a) {
+								if v := tb.T(stx.Val); v.Op == "slice" && v.contains(func(x *Term) bool { return x.Op == "outparam" && strings.Contains(x.Name, "DecodeElement") }) {
+									reused = true
+								}
+							}
+						}
+					})
+					if !wholeReset || reused {
+						c.bad("GUARD", "a fresh Entry per element", a.Pos(), "the Entry that DecodeElement fills is declared outside the token loop and never reset as a whole: every entry sent shares its slices (accessions, names, ...) with the next decode, so entries still queued in the channel are overwritten before the consumer reads them")
+					}
+				}
+			}
+		}
 		c.checkShape(good, "GUARD", "entry decoded from its start element", s.Pos(), "the value sent is the Entry filled by DecodeElement(&e, &startElement) just before", "the value sent is not visibly the Entry decoded by the single DecodeElement call")
 	}
 
